@@ -101,16 +101,20 @@ def Scalar.admits (s : Scalar) : DDefault → Bool
   | .int _ => s == .int | .float _ => s == .float | .bool _ => s == .bool | .str v => s == .str && plainStr v
   | .none => false
 
+def LitM.admits (m : LitM) (d : DDefault) : Bool :=
+  match m, d with
+  | .s v, .str w => v == w
+  | .i v, .int w => v == w
+  | _, _ => false
+
 /-- the default is a legal value of the type -/
 def DTyp.admits : DTyp → DDefault → Bool
   | .scalar s, d => s.admits d
   | .optional s, d => d == .none || s.admits d
   | .union a rest, d => (a :: rest).any (·.admits d)
   | .list _, _ => false
-  | .literal m ms, d => (m :: ms).any (fun x => match x, d with
-      | .s v, .str w => v == w | .i v, .int w => v == w | _, _ => false)
-  | .optLiteral m ms, d => d == .none || (m :: ms).any (fun x => match x, d with
-      | .s v, .str w => v == w | .i v, .int w => v == w | _, _ => false)
+  | .literal m ms, d => (m :: ms).any (·.admits d)
+  | .optLiteral m ms, d => d == .none || (m :: ms).any (·.admits d)
   | .annotated s _, d => s.admits d
   | .tupleEllipsis _, _ => false
   | .callableEllipsis _, _ => false
